@@ -204,6 +204,35 @@ def run(ctx: Ctx):
                          f"request is written to it (after the CER) while another peer is ready",
                          expected=f"`{cv_}.state in PEER_READY_STATES` established before the request is filed",
                          observed=f"guards: {sorted(map(str, fx))[:3]}")
+    # "when none exists the not-routable error is raised": a selected peer that has become
+    # unusable meanwhile is not the end of the routing while other candidates are left
+    ctx.inst("route_request:reselects-among-the-rest")
+    for cd in cdefs:
+        raises_ = [n for n in g.reach([d for l, d in cd.succ if l not in ("exc", "raise")], blocked=filing if 'filing' in dir() else [])
+                   if n.kind == "stmt" and isinstance(n.ast, ast.Raise) and "NotRoutable" in ast.unparse(n.ast)
+                   and not g.can_reach(n, cd) and all(not g.can_reach(fl, n) for fl in (filing if 'filing' in dir() else []))]
+        for rn in raises_:
+            fx = must_facts(g, at, rn)
+            none_left = any((f_[1] == "truthy" and f_[3] is False and isinstance(f_[0], str) and f_[0].isidentifier())
+                            or ("len(" in str(f_[0])) for f_ in fx)
+            # `if not rest or <rest did not shrink>: raise` - a disjunction leaves no single fact;
+            # the test that guards the raise speaks about a list of the remaining candidates
+            lists_ = {t.id for x in A.walk_no_nested(f.node) if isinstance(x, ast.Assign)
+                      and isinstance(x.value, (ast.ListComp, ast.List)) for t in x.targets if isinstance(t, ast.Name)}
+            par_r = A.parents(f.node)
+            up = par_r.get(rn.ast)
+            if isinstance(up, ast.If) and rn.ast in up.body and \
+                    {x.id for x in ast.walk(up.test) if isinstance(x, ast.Name)} & lists_:
+                none_left = True
+            in_loop = any(n.kind == "loop" and g.can_reach(cd, n) and g.can_reach(n, cd) for n in g.nodes)
+            if not (none_left and in_loop):
+                ctx.fail("route_request:reselects-among-the-rest", g.loc(rn),
+                         f"`{rn.text(60)}` ends the routing as soon as the selected peer's connection is gone or "
+                         f"not ready any more, although the other peers the selection was offered are still "
+                         f"ready: NotRoutable is raised while an eligible ready peer exists",
+                         expected="drop the unusable peer from the candidates and select again; raise when none is left",
+                         observed=f"guards: {sorted(map(str, fx))[:3]}")
+                break
     # the request's realm replaces the node's own whenever it is PRESENT (not: whenever it is
     # true - an empty Destination-Realm names no realm this node serves)
     for n in nondefault:
